@@ -415,3 +415,15 @@ impl<K> UnionFind<K> {
         self.rank.shrink_to(min_capacity);
     }
 }
+
+#[cfg(feature = "verif_hooks")]
+impl<K> UnionFind<K> {
+    /// Verification hook: build a `UnionFind` directly from its representation.
+    pub fn verif_from_raw_parts(parent: Vec<K>, rank: Vec<u8>) -> Self {
+        UnionFind { parent, rank }
+    }
+    /// Verification hook: the representation (parent pointers, ranks).
+    pub fn verif_raw_parts(&self) -> (&[K], &[u8]) {
+        (&self.parent, &self.rank)
+    }
+}
